@@ -196,6 +196,9 @@ def rowsM (f : Nat → Res (List (α × Int))) : Nat → Nat → Res (List (Int 
 /-- `DFA.from_substring(input_symbols, substring, contains=…, must_be_suffix=…)`. -/
 def fromSubstring (syms p : List α) (contains : Bool := true) (mustBeSuffix : Bool := false) :
     Res (DFA Int α) :=
+  -- `if not substring: return universal_language / empty_language` (every string contains and
+  -- ends with the empty string)
+  if p.isEmpty then (if contains then universalLanguage syms else emptyLanguage syms) else
   let m := p.length
   match kmpTable p with
   | .error e => .error e
@@ -305,6 +308,8 @@ def acTransBfs (syms : List α) (nodes : List (ACNode α)) :
 /-- `DFA.from_substrings(input_symbols, substrings, contains=…, must_be_suffix=…)`. -/
 def fromSubstrings (syms : List α) (pats : List (List α)) (contains : Bool := true)
     (mustBeSuffix : Bool := false) : Res (DFA Int α) :=
+  -- `if "" in substrings: return universal_language / empty_language`
+  if [] ∈ pats then (if contains then universalLanguage syms else emptyLanguage syms) else
   let trie := acTrie pats
   match acFailBfs (trie.length + 1) ((acGet trie 0).succ.map Prod.snd) trie with
   | .error e => .error e
@@ -314,7 +319,9 @@ def fromSubstrings (syms : List α) (pats : List (List α)) (contains : Bool := 
     | .ok (t0, f0) =>
       let tf : List (Int × List (α × Int)) × List Int :=
         if mustBeSuffix then (t0, f0) else
-          let e : Int := nat t0.length
+          -- `end_state = len(labels)`: one label per trie node (nodes of patterns with symbols
+          -- outside the alphabet have a label but no row)
+          let e : Int := nat nodes.length
           let toEnd := rowOf syms fun _ => e
           (f0.foldl (fun t s => ainsert s toEnd t) (ainsert e toEnd t0), sinsert e f0)
       let states := akeys tf.1
